@@ -141,14 +141,32 @@ func c10ValueProp(t *rapid.T, st *vstats.Collector) {
 			c10Head(b1))
 	}
 	if len(injected) > 0 {
-		// m1 was re-encoded above; decode once more for an untouched
-		// copy of what the decoder saw.
-		seenMsg, _, _ := c10Read(t, nil, b0)
-		if !c10UnknownPreserved(t, st, seenMsg, b0, injected, b1) &&
-			!c10RepacksExtension(m) {
+		onWire := true
+		for _, r := range injected {
+			enc := c10ref.AppendRecord(nil, r.Type, r.Val)
+			if !bytes.Contains(b0, enc) {
+				onWire = false
+			}
+		}
+		switch {
+		case onWire:
+			// m1 was re-encoded above; decode once more for an
+			// untouched copy of what the decoder saw.
+			seenMsg, _, _ := c10Read(t, nil, b0)
+			if !c10UnknownPreserved(t, st, seenMsg, b0, injected, b1) {
+				t.Fatalf("%T: unknown records on the wire were not "+
+					"shown to the decoder\nb0=%x", m, c10Head(b0))
+			}
 
-			t.Fatalf("%T: injected unknown records did not reach the "+
-				"wire\nb0=%x", m, c10Head(b0))
+		case c10RepacksExtension(m) && c10Known(c10KeyDropUnknown):
+			st.Known(c10KeyDropUnknown)
+			st.Count("excluded_known", 1)
+			st.Count(fmt.Sprintf("drops-unknown:%T", m), 1)
+
+		default:
+			t.Fatalf("%T: Encode dropped the unknown TLV records of its "+
+				"ExtraData (%d injected)\nb0=%x", m, len(injected),
+				c10Head(b0))
 		}
 	}
 
